@@ -194,6 +194,12 @@ func (n *Node) Destroy() {
 // deputy's key, and stores it in this (builder) node's database so that children can be built on it.
 // The returned block carries no confirms.  invalid = transactions the miner discarded.
 func (n *Node) Build(parent *types.Block, minerRank int, rounds int, txs types.Transactions, extra string) (*types.Block, types.Transactions, error) {
+	return n.BuildWith(parent, minerRank, rounds, txs, extra, nil, true)
+}
+
+// BuildWith is Build with a header tweak applied before the real assembler executes and seals the block (so every
+// root is consistent with the tweaked header); keep=false does not store the block in the builder's database.
+func (n *Node) BuildWith(parent *types.Block, minerRank int, rounds int, txs types.Transactions, extra string, tweak func(h *types.Header), keep bool) (*types.Block, types.Transactions, error) {
 	w := n.W
 	height := parent.Height() + 1
 	dist, err := n.DM.GetMinerDistance(height, parent.MinerAddress(), w.Miners[minerRank])
@@ -204,12 +210,18 @@ func (n *Node) Build(parent *types.Block, minerRank int, rounds int, txs types.T
 	t := parent.Time() + (uint32(dist)-1+uint32(rounds*w.N))*slotSec
 	header := &types.Header{ParentHash: parent.Hash(), MinerAddress: w.Miners[minerRank], Height: height,
 		GasLimit: parent.GasLimit(), Time: t, Extra: extra}
+	if tweak != nil {
+		tweak(header)
+	}
 	block, invalid, err := n.Asm.MineBlock(header, txs, 1000000)
 	if err != nil {
 		return nil, invalid, err
 	}
 	sig := Sign(block.Hash(), w.Keys[minerRank], 0)
 	block.Header.SignData = sig[:]
+	if !keep {
+		return block, invalid, nil
+	}
 	if err := n.DB.SetBlock(block.Hash(), block); err != nil {
 		return nil, invalid, fmt.Errorf("builder SetBlock: %v", err)
 	}
